@@ -18,7 +18,7 @@ use std::process::{Child, ChildStdin, Command, Stdio};
 
 const S: i128 = 1_000_000_000;
 
-struct CProg {
+pub struct CProg {
     child: Child,
     sin: ChildStdin,
     /// lines of the program's stdout, forwarded by a reader thread (so that a call that never returns is a
@@ -31,7 +31,11 @@ struct CProg {
 const CALL_TIMEOUT_S: u64 = 20;
 
 impl CProg {
-    fn ask(&mut self, line: &str) -> Result<String, String> {
+    pub fn finish(mut self) {
+        drop(self.sin);
+        let _ = self.child.wait();
+    }
+    pub fn ask(&mut self, line: &str) -> Result<String, String> {
         writeln!(self.sin, "{line}").map_err(|e| format!("C program ({}) is gone: {e}", self.label))?;
         self.sin.flush().map_err(|e| e.to_string())?;
         match self.lines.recv_timeout(std::time::Duration::from_secs(CALL_TIMEOUT_S)) {
@@ -45,7 +49,7 @@ impl CProg {
     }
 }
 
-fn build_c(ctx: &Ctx, static_link: bool) -> Result<PathBuf, String> {
+pub fn build_c(ctx: &Ctx, static_link: bool) -> Result<PathBuf, String> {
     let plain = std::env::var("PLAIN_TARGET").unwrap_or_else(|_| ctx.verif_dir.join("target/plain").to_string_lossy().to_string());
     let libdir = format!("{plain}/release");
     let out = PathBuf::from(format!("{plain}/cabi-{}", if static_link { "static" } else { "so" }));
@@ -66,7 +70,7 @@ fn build_c(ctx: &Ctx, static_link: bool) -> Result<PathBuf, String> {
     Ok(out)
 }
 
-fn start_c(bin: &Path, label: &'static str) -> Result<CProg, String> {
+pub fn start_c(bin: &Path, label: &'static str) -> Result<CProg, String> {
     let mut child = Command::new(bin).stdin(Stdio::piped()).stdout(Stdio::piped()).stderr(Stdio::null()).spawn().map_err(|e| format!("cannot start {}: {e}", bin.display()))?;
     let sin = child.stdin.take().unwrap();
     let sout = BufReader::new(child.stdout.take().unwrap());
@@ -86,7 +90,7 @@ fn start_c(bin: &Path, label: &'static str) -> Result<CProg, String> {
     Ok(CProg { child, sin, lines, label })
 }
 
-fn parse_abi(line: &str) -> BTreeMap<String, String> {
+pub fn parse_abi(line: &str) -> BTreeMap<String, String> {
     line.split_whitespace().skip(1).filter_map(|kv| kv.split_once('=')).map(|(k, v)| (k.to_string(), v.to_string())).collect()
 }
 
@@ -357,6 +361,17 @@ fn differential(ctx: &Ctx, bin: &Path, label: &'static str, t: &mut Tally, sampl
                 return Err(format!("sequence set-up: clockbound_open says {co}"));
             }
             let file = std::fs::OpenOptions::new().read(true).write(true).open(&path).map_err(|e| e.to_string())?;
+            // a second context on another segment that never changes, open at the same time in both libraries:
+            // its answers must stay its own
+            let path_b = dir.join("seq-b");
+            let _ = std::fs::remove_file(&path_b);
+            let mut wb = ShmWriter::new(&path_b).map_err(|e| e.to_string())?;
+            let rec_b = Rec { as_of_s: 4000, as_of_ns: 7, va_s: 9000, va_ns: 0, bound: 123_456_789, drift: 77, reserved: 0, status: 2 };
+            wb.write(&rec_b.to_ceb());
+            if c.ask(&format!("P 2 {}", path_b.display()))? != "open ok" {
+                return Err("sequence set-up: clockbound_open of the second segment failed".into());
+            }
+            let mut rust_b = ClockBoundClient::new_with_path(path_b.to_str().unwrap()).map_err(|e| format!("{:?}", e.kind))?;
             for (step, m) in seq.iter().enumerate() {
                 match *m {
                     "publish" => {
@@ -397,14 +412,34 @@ fn differential(ctx: &Ctx, bin: &Path, label: &'static str, t: &mut Tally, sampl
                 let cl = c.ask(&format!("Q 1 {} {} {} {}", real_ns.div_euclid(S), real_ns.rem_euclid(S), mono_ns.div_euclid(S), mono_ns.rem_euclid(S)))?;
                 *t.classes.entry(format!("sequence step: {}", r1.split(' ').take(2).collect::<Vec<_>>().join(" "))).or_insert(0) += 1;
                 t.nontrivial += 1;
+                // the bystander context
+                {
+                    let (real_b, mono_b) = (ts_ns(1_700_000_000, 5), ts_ns(4002, 0));
+                    vclock::arm(VClock { real_ns: real_b, mono_ns: mono_b, auto_advance_ns: 0, fail_errno: 0, fail_clock: -1 });
+                    let rb = rust_b.now();
+                    let want_b = rec_b.to_ceb().now();
+                    vclock::disarm();
+                    let fmt = |e: &libc::timespec, l: &libc::timespec, st: u32| format!("now ok {} {} {} {} {}", e.tv_sec, e.tv_nsec, l.tv_sec, l.tv_nsec, match st { 0 => &abi["sta_unknown"], 1 => &abi["sta_sync"], _ => &abi["sta_free"] });
+                    let want = match want_b { Ok((e, l, st)) => fmt(&e, &l, status_num(st)), Err(e) => format!("{e:?}") };
+                    let r_b = match rb { Ok(nw) => fmt(nw.earliest.as_ref(), nw.latest.as_ref(), status_num(nw.clock_status)), Err(e) => render_err("now", client_err(e), &abi) };
+                    let c_b = c.ask(&format!("Q 2 {} {} {} {}", real_b.div_euclid(S), real_b.rem_euclid(S), mono_b.div_euclid(S), mono_b.rem_euclid(S)))?;
+                    n += 1;
+                    if r_b != want || c_b != want {
+                        t.add("C17:second-context-disturbed", format!("two contexts open at once; the first one's segment went through {:?}; the context on the other, unchanged segment must answer '{want}': clockbound_now says '{c_b}', the Rust client says '{r_b}'", &seq[..=step]), json!({"check": "C17", "part": "sequence, bystander context", "library": label, "mutations": seq, "step": step, "c": c_b, "rust": r_b, "expected": want}));
+                        break;
+                    }
+                }
                 if cl != r1 {
                     t.add("C17:c-differs-from-rust:after-segment-change", format!("both libraries attached to a fresh segment, then the segment went through {:?}: at step {step} clockbound_now says '{cl}', the Rust client says '{r1}'", &seq[..=step]), json!({"check": "C17", "part": "sequence", "library": label, "mutations": seq, "step": step, "c": cl, "rust": r1}));
                     break;
                 }
             }
             let _ = c.ask("R 1")?;
+            let _ = c.ask("R 2")?;
             drop(w);
+            drop(wb);
             crate::seqmc::engine::close_leaked_fds(&path);
+            crate::seqmc::engine::close_leaked_fds(&path_b);
         }
     }
     // (d) a system call made while opening a valid segment fails once (open, the header read, mmap; several
@@ -440,8 +475,7 @@ fn differential(ctx: &Ctx, bin: &Path, label: &'static str, t: &mut Tally, sampl
         drop(w);
         crate::seqmc::engine::close_leaked_fds(&path);
     }
-    drop(c.sin);
-    let _ = c.child.wait();
+    c.finish();
     Ok((n, abi))
 }
 
